@@ -20,6 +20,7 @@ from vlib.runner import VERIF
 ID = "C04"
 EXTRACTORS = ["solve_tables"]
 LEAN_MODULES = ["HalmosVerif.Props.C04"]
+LEAN_EXTRA_TARGETS = ["HalmosVerif.Spec.Evm", "HalmosVerif.Spec.EvmOps", "HalmosVerif.Spec.Keccak"]   # Driver/Evm (concrete replay)
 RULE = (
     "(a) constants: widths 1..512 x boundary/random values x the three syntaxes (#b, #x, (_ bvN W)) through the real "
     "parse_const_value, the Lean model and the independent printers; malformed constants; "
@@ -27,7 +28,8 @@ RULE = (
     "known values on p_*/halmos_* variables of random widths, with and without an f_evm_ function in the model, guards `OP(x,c)==k && x CMP b` (SDIV/SMOD/SAR/SIGNEXTEND/DIV/MOD by powers of two and small constants, negative non-multiple "
     "dividends) executed by the real SEVM, the failing path solved and labelled by the real loop, valid models and unsat verdicts judged "
     "against an independent Yellow-Paper evaluation of the guard; mixed Bool/word bitwise guards `BITOP(cmp(a,c), w(y)) != 0` (AND/OR/XOR of a "
-    "comparison result with y, y & mask, y << k, y >> k, both operand orders) judged the same way; the real solve_end_to_end + callback flow with --dump-smt-directory for same-named functions / restarting path ids / a rerun "
+    "comparison result with y, y & mask, y << k, y >> k, both operand orders) judged the same way; multi-path programs `if (x == c) return; assert(x OP y != k)` (EQ / ISZERO, both jump polarities, x and y re-read "
+    "from calldata) whose valid models are executed on the reference EVM (Lean Driver/Evm) as a concrete run of the whole program; the real solve_end_to_end + callback flow with --dump-smt-directory for same-named functions / restarting path ids / a rerun "
     "into the same directory (every valid model replayed on THIS path's conditions), plus synthetic "
     "outputs (layout/whitespace variants, piped names, short names, duplicates, junk, first-line variants) through the real "
     "from_result / parse_model_str / is_model_valid / _solve_end_to_end_callback vs the Lean model; a case is distinct by its text."
@@ -547,6 +549,73 @@ def correspond(ctx):
                 if gkind not in ("sat", "unsat"):
                     ctx.count(f"solver-timing:bitguard:{gkind}")
                 K.close_function_ctx(gf)
+
+    # multi-path programs: one branch learns `x == c` and ends; its sibling re-reads x and y from calldata and reaches a failing assertion
+    # over `x OP y`.  Every model routed to the valid list is executed on the reference EVM (Lean Driver/Evm) as a concrete run of the
+    # WHOLE program and must end in the reported failure (here the path's own conditions may well be satisfied by the model: it is the
+    # path that must be a real behaviour of the program).
+    from vlib import evmdiff
+
+    replay_jobs = []     # (scenario, inputs, description)
+
+    def queue_replay(code, xv, yv, desc):
+        scn = evmdiff.Scenario(contracts={evmdiff.MAIN: code}, nargs=2, selector=b"", name=desc)
+        inp = evmdiff.Inputs(args=[xv % M256, yv % M256], caller=0xCA11E4, origin=0x0419, value=0, balances={}, baldefault=0)
+        replay_jobs.append((scn, inp, desc))
+
+    mp_cases = [("EQ", 5, "ADD", 12, 0), ("ISZERO", 0, "XOR", 6, 1), ("EQ", 7, "SUB", 1, 1), ("EQ", 2**255, "AND", 8, 0), ("ISZERO", 0, "ADD", 0, 0), ("EQ", 1, "OR", 3, 1)]
+    if ctx.tier != "quick":
+        for _ in range(30):
+            mp_cases.append((rng.choice(["EQ", "ISZERO"]), rng.choice([0, 1, 5, 9, M256 - 1]), rng.choice(["ADD", "SUB", "XOR", "AND", "OR"]), rng.randrange(0, 20), rng.randrange(2)))
+    lx, ly = [("push", 0), "CALLDATALOAD"], [("push", 32), "CALLDATALOAD"]
+    for mi, (learn, c, op2, k, variant) in enumerate(mp_cases):
+        if learn == "EQ":
+            test = [("push", c % M256)] + lx + ["EQ"]                 # x == c
+        else:
+            c = 0
+            test = lx + ["ISZERO"]                                    # x == 0
+        if variant == 0:      # jump taken when equal
+            head = test + [("push", "RET"), "JUMPI"]
+        else:                 # fall through when equal: jump over the return when different
+            head = test + ["ISZERO", ("push", "GO"), "JUMPI", "STOP", ("label", "GO")]
+        items = (head + ly + lx + [op2, ("push", k % M256), "EQ", ("push", "FAIL"), "JUMPI", "STOP", ("label", "RET"), "STOP",
+                                  ("label", "FAIL"), ("push", 0), ("push", 0), "REVERT"])
+        code = K.asm(items)
+        desc = f"if (x == {c}) return; assert(x {op2} y != {k}) [variant {variant}]"
+        try:
+            exs = eng2.run(code)
+        except Exception as e:
+            ctx.count(f"engine-error:{type(e).__name__}")
+            continue
+        failing = [ex for ex in exs if ex.context.output.error is not None]
+        ctx.case(f"multipath|{desc}", nontrivial=True)
+        ctx.count(f"multipath:{learn}:{op2}:paths={len(exs)}:failing={len(failing)}")
+        sname, scmd = (("yices", f"{yices} --smt2-model-format --bvconst-in-decimal") if mi % 2 else ("z3", z3bin))
+        gargs = eng.args(solver_command=scmd, solver_timeout_assertion=6.0)
+        for fx in failing:
+            gf = K.mk_function_ctx(gargs, "test", "M")
+            gpc = K.path_ctx(gargs, mi, gf.solving_ctx, fx.path.to_smt2(gargs))
+            gout = solve_end_to_end(gpc)
+            gf.call_sequences[mi] = ""
+            gh = CounterexampleHandler(ctx=gf, is_invariant=False, is_probe=False, flamegraph_enabled=False, potential_flamegraphs={}, submitted_futures=[])
+            gfut = Future()
+            gfut.set_result(gout)
+            with contextlib.redirect_stdout(io.StringIO()), contextlib.redirect_stderr(io.StringIO()):
+                gh._solve_end_to_end_callback(gfut, ex=None, path_ctx=gpc, description=None)
+            gkind = gout.result if isinstance(gout.result, str) else str(gout.result)
+            ctx.count(f"multipath:{sname}:{gkind}:{'valid' if gf.valid_counterexamples else 'invalid' if gf.invalid_counterexamples else 'none'}")
+            for m in gf.valid_counterexamples:
+                vals = {v.full_name[:3]: v.value for v in m.model.values()}
+                queue_replay(code, vals.get("p_x", 0), vals.get("p_y", 0),
+                             f"{desc} ({sname}): valid counterexample x={vals.get('p_x', 0)}, y={vals.get('p_y', 0)}; path conditions {[str(cn)[:60] for cn in fx.path.conditions]}")
+            K.close_function_ctx(gf)
+    if replay_jobs:
+        for (scn, inp, desc), res in zip(replay_jobs, evmdiff.run_concrete_batch(ctx, [(a, b) for a, b, _ in replay_jobs])):
+            ctx.count(f"concrete-replay:{res.halt}")
+            if res.halt != "revert":
+                ctx.violation("valid-counterexample-does-not-reach-failure[concrete-run-of-program]",
+                              f"{desc}: the concrete run of the program on the reference EVM ends in `{res.halt}`, not in the reported failure",
+                              {"kind": "multipath", "code": scn.contracts[evmdiff.MAIN].hex(), "args": [str(a) for a in inp.args]})
 
     # non-default --dump-smt-directory: same-named functions of different contracts and reruns share DIR/<function>/ and path ids
     # restart at 0.  Real solve_end_to_end + callback per path; every model routed to the valid list must satisfy THIS path's
